@@ -93,7 +93,8 @@ ASSUMPTIONS = [
     "an IA solver is defined'",
     "set_precoders/set_receive_filters are fed numpy object arrays (what "
     "the tests and the library itself use) and, as a labelled minority, "
-    "plain lists (documented as accepted)",
+    "plain lists (documented as accepted) and, for set_precoders, one 3-D "
+    "numpy array of equally shaped precoders",
 ]
 QUICK_BUDGET_S = 300
 THOROUGH_BUDGET_S = 2400
@@ -302,7 +303,7 @@ def _op_set_precoders():
         fseed=seeds,
         factor=fl(0.75, 1.0),
         container=st.sampled_from(["objarray", "objarray", "objarray",
-                                   "list"])))
+                                   "list", "ndarray3d"])))
 
 
 def _op_set_rx():
@@ -1348,6 +1349,14 @@ def _apply(ctx, solver, model, cls, op, tags, opi):
         P_new = np.array([float(x) for x in op["pvals"][:K]])
         P_eff = P_new if with_P else model.Pvec()
         wrap = _objarray if op["container"] == "objarray" else list
+        cont = op["container"]
+        if cont == "ndarray3d":
+            # equally shaped precoders stacked in ONE 3-D numpy array ("a
+            # numpy array where each element is the precoder of one user")
+            if len(set(f.shape for f in F)) == 1:
+                wrap = np.array
+            else:
+                wrap, cont = _objarray, "objarray"
         kw = {}
         mode = op["mode"]
         if mode in ("F", "both"):
@@ -1366,7 +1375,7 @@ def _apply(ctx, solver, model, cls, op, tags, opi):
             kw["full_F"] = wrap([f.copy() for f in explicit])
         if with_P:
             kw["P"] = P_new.copy()
-        tags["F_container"] = ("list" if op["container"] == "list" and
+        tags["F_container"] = (cont if cont in ("list", "ndarray3d") and
                                mode in ("F", "both") else "objarray")
         solver.set_precoders(**kw)
         if mode == "full_F":
@@ -1376,7 +1385,7 @@ def _apply(ctx, solver, model, cls, op, tags, opi):
             model.P = P_new
         model.solved = False
         ctx.label("set_precoders:" + mode + ("+P" if with_P else ""),
-                  "container=" + op["container"])
+                  "container=" + cont)
         model.note_change("set_precoders", DERIVED)
         model.cache_cleared("full_F")
         if explicit is not None:   # the setter itself fills the cache
